@@ -262,7 +262,9 @@ impl RunResult {
         let mut recs: Vec<(String, String, String)> = Vec::new();
         let mut raw = Vec::new();
         let mut in_rec = false;
-        for line in self.stdout.lines() {
+        // split on line feeds only: a payload may contain carriage returns
+        let body = self.stdout.strip_suffix('\n').unwrap_or(&self.stdout);
+        for line in body.split('\n') {
             if let Some((lvl, target, msg)) = parse_log_prefix(line) {
                 recs.push((lvl, target, msg));
                 in_rec = true;
